@@ -92,7 +92,12 @@ func (e *Engine) DetachHandler(prefix enc.Name) error {
 	if n == nil {
 		return ndn.ErrInvalidValue{Item: "prefix", Value: prefix}
 	}
-	n.Delete()
+	// Remove only this handler: handlers attached below stay reachable, and pruning stops at
+	// the first ancestor that has a handler of its own.
+	n.SetValue(nil)
+	n.DeleteIf(func(h fibEntry) bool {
+		return h == nil
+	})
 	return nil
 }
 
